@@ -443,7 +443,7 @@ def del_ivector(ivect):
 
 lsci.setIVectorValue.argtypes = [ctypes.POINTER(IVECTOR),
                                   ctypes.c_size_t,
-                                  ctypes.c_size_t]
+                                  ctypes.c_int]
 lsci.setIVectorValue.restype = None
 
 
@@ -457,7 +457,7 @@ def set_ivector_value(ivect, indx, val):
 
 lsci.getIVectorValue.argtypes = [ctypes.POINTER(IVECTOR),
                                   ctypes.c_size_t]
-lsci.getIVectorValue.restype = ctypes.c_size_t
+lsci.getIVectorValue.restype = ctypes.c_int
 
 
 def get_ivector_value(ivect, indx):
@@ -475,7 +475,7 @@ def ivector_tolist(ivect):
     return xvector_tolist(ivect)
 
 lsci.IVectorAppend.argtypes = [ctypes.POINTER(IVECTOR),
-                                ctypes.c_size_t]
+                                ctypes.c_int]
 lsci.IVectorAppend.restype = None
 
 def ivector_append(ivect, val):
